@@ -84,7 +84,10 @@ func vC14Word(r *rand.Rand) string {
 }
 
 var vC14Types = []string{"A", "A", "AAAA", "NS", "NS", "CNAME", "PTR", "DNAME", "MB", "MG", "MR", "MD", "MF", "MX", "MX", "KX", "AFSDB", "RT",
-	"SOA", "SRV", "MINFO", "RP", "PX", "NAPTR", "TXT", "TXT", "HINFO", "DS", "DNSKEY", "NSEC", "RRSIG", "SIG", "CAA", "TLSA", "RFC3597", "RFC3597"}
+	"SOA", "SRV", "MINFO", "RP", "PX", "NAPTR", "TXT", "TXT", "HINFO", "DS", "DNSKEY", "NSEC", "RRSIG", "SIG", "CAA", "TLSA", "RFC3597", "RFC3597",
+	// types that carry a domain name the canonical form does NOT fold (they are outside the RFC 4034 6.2 / RFC 6840 5.1
+	// list): two records that differ in the case of that name are two records of the RRset
+	"SVCB", "HTTPS", "LP", "TALINK", "NSAPPTR"}
 
 // vC14GenRR builds one record of the given type: the library's struct and,
 // independently, the RDATA as the sequence of fields RFC 1035 / 4034 define.
@@ -225,6 +228,26 @@ func vC14GenRR(r *rand.Rand, typ string, h dns.RR_Header, unknownType uint16) vC
 		a, b, c, d := uint8(r.Intn(4)), uint8(r.Intn(2)), uint8(r.Intn(3)), vC14RandBytes(r, 1+r.Intn(33))
 		h.Rrtype = dns.TypeTLSA
 		return vC14RR{&dns.TLSA{Hdr: h, Usage: a, Selector: b, MatchingType: c, Certificate: fmt.Sprintf("%x", d)}, "TLSA", []vC14F{vC14FB([]byte{a, b, c}, d)}}
+	case "SVCB", "HTTPS":
+		p, n := uint16(r.Intn(4)), nm()
+		if typ == "HTTPS" {
+			h.Rrtype = dns.TypeHTTPS
+			return vC14RR{&dns.HTTPS{SVCB: dns.SVCB{Hdr: h, Priority: p, Target: n}}, "HTTPS", []vC14F{vC14FB(vC14U16(p)), vC14FN(n)}}
+		}
+		h.Rrtype = dns.TypeSVCB
+		return vC14RR{&dns.SVCB{Hdr: h, Priority: p, Target: n}, "SVCB", []vC14F{vC14FB(vC14U16(p)), vC14FN(n)}}
+	case "LP":
+		p, n := u16(), nm()
+		h.Rrtype = dns.TypeLP
+		return vC14RR{&dns.LP{Hdr: h, Preference: p, Fqdn: n}, "LP", []vC14F{vC14FB(vC14U16(p)), vC14FN(n)}}
+	case "TALINK":
+		a, b := nm(), nm()
+		h.Rrtype = dns.TypeTALINK
+		return vC14RR{&dns.TALINK{Hdr: h, PreviousName: a, NextName: b}, "TALINK", []vC14F{vC14FN(a), vC14FN(b)}}
+	case "NSAPPTR":
+		n := nm()
+		h.Rrtype = dns.TypeNSAPPTR
+		return vC14RR{&dns.NSAPPTR{Hdr: h, Ptr: n}, "NSAPPTR", []vC14F{vC14FN(n)}}
 	default: // RFC 3597 unknown type
 		d := vC14RandBytes(r, r.Intn(24))
 		h.Rrtype = unknownType
@@ -275,8 +298,71 @@ func vC14VaryRR(r *rand.Rand, x vC14RR) vC14RR {
 		flip(&t.Ptr)
 	case *dns.SRV:
 		flip(&t.Target)
+	case *dns.DNAME:
+		flip(&t.Target)
+	case *dns.MB:
+		flip(&t.Mb)
+	case *dns.MG:
+		flip(&t.Mg)
+	case *dns.MR:
+		flip(&t.Mr)
+	case *dns.MD:
+		flip(&t.Md)
+	case *dns.MF:
+		flip(&t.Mf)
+	case *dns.KX:
+		flip(&t.Exchanger)
+	case *dns.AFSDB:
+		flip(&t.Hostname)
+	case *dns.RT:
+		flip(&t.Host)
+	case *dns.SOA:
+		if r.Intn(2) == 0 {
+			flip(&t.Ns)
+		} else {
+			flip(&t.Mbox)
+		}
+	case *dns.MINFO:
+		if r.Intn(2) == 0 {
+			flip(&t.Rmail)
+		} else {
+			flip(&t.Email)
+		}
+	case *dns.RP:
+		if r.Intn(2) == 0 {
+			flip(&t.Mbox)
+		} else {
+			flip(&t.Txt)
+		}
+	case *dns.PX:
+		if r.Intn(2) == 0 {
+			flip(&t.Map822)
+		} else {
+			flip(&t.Mapx400)
+		}
+	case *dns.NAPTR:
+		flip(&t.Replacement)
+	// from here on: names the canonical form leaves as they are — the variant stays a distinct record
 	case *dns.NSEC:
-		flip(&t.NextDomain) // not folded by RFC 6840: stays a distinct record
+		flip(&t.NextDomain)
+	case *dns.RRSIG:
+		flip(&t.SignerName)
+	case *dns.SIG:
+		flip(&t.SignerName)
+	case *dns.SVCB:
+		flip(&t.Target)
+	case *dns.HTTPS:
+		flip(&t.Target)
+	case *dns.LP:
+		flip(&t.Fqdn)
+	case *dns.TALINK:
+		if r.Intn(2) == 0 {
+			flip(&t.PreviousName)
+		} else {
+			flip(&t.NextName)
+		}
+	case *dns.NSAPPTR:
+		flip(&t.Ptr)
 	}
 	return vC14RR{c, x.kind, fs}
 }
